@@ -1,6 +1,8 @@
 package main
 
 import (
+	"os"
+	"runtime/debug"
 	"fmt"
 	"go/ast"
 	"go/parser"
@@ -104,6 +106,9 @@ func (u *Unit) noteWrite(name string) {
 		u.writes = map[string]bool{}
 	}
 	u.writes[name] = true
+	if d := os.Getenv("VERIF_DEBUGWRITE"); d != "" && d == u.name+":"+name {
+		debug.PrintStack()
+	}
 }
 
 func (u *Unit) panicExit(st *State, cond, why string, n ast.Node) {
@@ -1186,7 +1191,12 @@ func (u *Unit) loopHeapWrites(e *Ev, n ast.Node) (map[string]string, bool) {
 					if sel.Kind() == types.MethodVal {
 						fn, _ = sel.Obj().(*types.Func)
 						if fn != nil {
-							if _, isIface := fn.Type().(*types.Signature).Recv().Type().Underlying().(*types.Interface); isIface {
+							if it, isIface := fn.Type().(*types.Signature).Recv().Type().Underlying().(*types.Interface); isIface {
+								if fn.Pkg() != nil && fn.Pkg() != u.g.P.Pkg.Types && !u.g.hasContractedImplementer(it, fn.Name()) {
+									// a dependency's interface with no implementer under contract here: modelled
+									// (callInterface) as leaving this package's objects alone
+									return true
+								}
 								all = true
 								return true
 							}
